@@ -17,6 +17,9 @@ def x_obligations(tier):
     for L, oi, bi in ([(3, 0, 0), (4, 1, 2), (4, 2, 1), (5, 3, 3)] if tier == "quick" else [(L, oi, bi) for L in (3, 4, 5, 6) for oi in range(4) for bi in range(5) if (L + oi + bi) % 2 == 0]):
         o.append(Obl(f"C19-ext-collide[L={L},order={oi},base={bi}]", M, "extrapolate_collide", env={"VF_L": str(L), "VF_OI": str(oi), "VF_BI": str(bi)}, timeout=T, family="C19-ext",
                      bound=f"chain of {L} keys; an explicit type named like a generated one (level chosen by the solver) with another template, configured before or after the extrapolated type; optional second basetype"))
+    for L, oi, bi in ([(4, 0, 0), (5, 1, 2)] if tier == "quick" else [(L, oi, bi) for L in (4, 5, 6) for oi in range(4) for bi in range(5) if (L + oi + bi) % 3 == 0]):
+        o.append(Obl(f"C19-ext-tagged[L={L},order={oi},base={bi}]", M, "extrapolate_tagged", env={"VF_L": str(L), "VF_OI": str(oi), "VF_BI": str(bi)}, timeout=T, family="C19-ext",
+                     bound=f"two hierarchies sharing key names but tagged differently at a level chosen by the solver, chain of {L} keys"))
     for si in range(6):
         for sj in range(6):
             if si == sj or (tier == "quick" and (si + sj) % 3 != 0):
